@@ -8,7 +8,8 @@ Every case is a history on 1–2 client connections (each with its own proxy mod
 layer stack in harness/common/world.py: mode layer (HttpProxy / HttpUpstreamProxy / ReverseProxy / TransparentProxy /
 Socks5Proxy) -> NextLayer -> HttpLayer -> (HttpStream, HttpUpstreamProxy tunnel, Http1Client ...), with the REAL
 NextLayer, UpstreamAuth and Proxyserver addons answering every hook.  A stub answers each request head arriving on an
-upstream connection (200 to a CONNECT, 299 otherwise).  Every upstream connection's byte stream is cut into request
+upstream connection (200 to a CONNECT, 299 otherwise); a TLS ClientHello (direct or inside mitmproxy's own CONNECT
+tunnel) is answered by an in-memory TLS origin whose decrypted input is treated the same way.  Every upstream connection's byte stream is cut into request
 heads; each head is classified by where it was written:
     proxy            — on a connection opened to the configured upstream proxy, before any CONNECT was answered on it
     originViaTunnel  — on such a connection after the CONNECT exchange (= travels through the tunnel to the origin)
@@ -22,7 +23,7 @@ from common.check import PropertyCheck, Skip, hx, unhx
 from common.world import World
 
 from mitmproxy import certs
-from mitmproxy.addons import next_layer, proxyserver, tlsconfig, upstream_auth
+from mitmproxy.addons import next_layer, proxyauth, proxyserver, tlsconfig, upstream_auth
 from common.paths import WORK
 from mitmproxy.connection import Client, ConnectionState
 from mitmproxy.proxy import context, mode_specs
@@ -216,20 +217,22 @@ class Check(PropertyCheck):
                   "with the real NextLayer, UpstreamAuth and Proxyserver addons: per step, the place (proxy / through the "
                   "tunnel / reverse target / origin), kind (CONNECT / request) and credential field of every request head "
                   "written upstream, and the client-side outcome.")
-    level_note = ("trusted: Lean kernel; hand model tied differentially (validated, not verified). TLS is NOT driven: "
-                  "tunnels carry plain HTTP/1.1 only (CONNECT to :80 and :443 followed by plain requests); an https-scheme "
-                  "request is observed up to mitmproxy's CONNECT to the upstream proxy (the TLS handshake to the origin fails "
-                  "in the harness, so the model's TLS-protected write is not compared and such a request is the last one on "
-                  "its connection); https upstream proxies / https reverse targets, HTTP/2 and request bodies are not "
-                  "generated. The model emits a CONNECT for every https request (connection reuse would only remove writes). "
-                  "UpstreamAuth.tunneled is a WeakSet: the model never removes entries and assumes client ids are not reused. "
-                  "With HTTP/2 between client and mitmproxy a CONNECT stream marks the whole client connection as tunnelled, so "
-                  "later plain-http streams of that connection get no credential (fails closed).")
+    level_note = ("trusted: Lean kernel; hand model tied differentially (validated, not verified). TLS towards the origin IS "
+                  "driven for https-scheme requests: an in-memory TLS server (ssl.MemoryBIO, certificate from a CertStore under "
+                  ".work/c24, real TlsConfig addon answering tls_start_server) terminates the session that mitmproxy opens "
+                  "directly (regular mode) or through its own CONNECT at the upstream proxy (upstream mode), and the decrypted "
+                  "request heads are scanned. NOT driven: TLS spoken by the client inside its own CONNECT tunnel (client "
+                  "tunnels carry plain HTTP/1.1: CONNECT to :80 and :443 followed by plain requests), https upstream proxies / "
+                  "https reverse targets, HTTP/2, request bodies. The model emits a CONNECT for every https request (the harness "
+                  "uses a fresh origin per https request; connection reuse would only remove writes). UpstreamAuth.tunneled is a "
+                  "WeakSet: the model never removes entries and assumes client ids are not reused. With HTTP/2 between client and "
+                  "mitmproxy a CONNECT stream marks the whole client connection as tunnelled, so later plain-http streams of that "
+                  "connection get no credential (fails closed).")
     technique = "Lean 4 proof (trace induction, tunnel-membership invariant) + end-to-end differential correspondence through world.py with the real NextLayer/UpstreamAuth/Proxyserver addons"
     rule = ("history = upstream_auth set/unset x 1-2 client connections with a mode each (regular, upstream, reverse, "
             "transparent, socks5) x <=3 (quick) / <=5 steps per connection interleaved; step = plain absolute/origin-form "
-            "request (two origins), CONNECT to :80 or :443 (then plain requests inside), or an https-scheme request (last on "
-            "its connection). Exhaustive small scope first: every mode x auth x every step sequence of length <=3 on one "
+            "request (two origins), CONNECT to :80 or :443 (then plain requests inside), or an absolute-form https-scheme "
+            "request (TLS to a fresh origin, decrypted by the in-memory peer). Exhaustive small scope first: every mode x auth x every step sequence of length <=3 on one "
             "connection. distinct = distinct case; non-trivial = at least one write reached an upstream connection.")
     budget = {"quick": 1500, "thorough": 40000}
     time_budget = {"quick": 20, "thorough": 500}
@@ -240,8 +243,9 @@ class Check(PropertyCheck):
                     "mitmproxy.proxy.layers.http:HttpStream.handle_connect_upstream", "mitmproxy.proxy.layers.http:HttpStream.handle_connect_finish",
                     "mitmproxy.proxy.layers.http:HttpStream.make_server_connection",
                     "mitmproxy.proxy.layers.http:HttpStream.state_wait_for_request_headers",
-                    "mitmproxy.addons.next_layer:NextLayer._next_layer", "mitmproxy.addons.next_layer:NextLayer._setup_explicit_http_proxy"]
+                    "mitmproxy.addons.tlsconfig:TlsConfig.tls_start_server", "mitmproxy.addons.next_layer:NextLayer._next_layer", "mitmproxy.addons.next_layer:NextLayer._setup_explicit_http_proxy"]
     trusted_base = ["harness/common/world.py as a stand-in for proxy/server.py's command interpreter",
+                    "CPython ssl / OpenSSL as the in-memory TLS origin that decrypts what mitmproxy writes into TLS sessions",
                     "classification of upstream bytes: a connection opened to the upstream proxy's address carries direct traffic until its CONNECT is answered, tunnelled traffic afterwards"]
     parallel = False
 
@@ -255,8 +259,19 @@ class Check(PropertyCheck):
     # ------------------------------------------------------------------ generator
     STEPS = ["http", "http2", "c80", "c443", "https"]
 
-    def mk_case(self, auth, conns, steps):
-        return {"auth": auth, "conns": [{"mode": m} for m in conns], "steps": steps}
+    CREDS = ["user:s3cret", "u:p:with:colons", "Ünï:pässwörd", "x:"]
+    CLIENT_CRED = "cli:pw"
+
+    def mk_case(self, auth, conns, steps, opts=None, cred=None, pauth=None):
+        c = {"auth": auth, "conns": [{"mode": m} for m in conns], "steps": steps}
+        if opts: c["opts"] = opts
+        if cred: c["cred"] = cred
+        if pauth: c["pauth"] = pauth          # ProxyAuth also loaded: every client request carries good / bad client credentials
+        return c
+
+    def cred_of(self, case): return case.get("cred") or self.CRED
+
+    def token_of(self, case): return base64.b64encode(self.cred_of(case).encode("utf-8"))
 
     def exhaustive(self, tier):
         import itertools
@@ -283,10 +298,24 @@ class Check(PropertyCheck):
             steps = []
             while any(pending):
                 steps.append(rng.pick([q for q in pending if q]).pop(0))
-            yield self.mk_case(rng.chance(0.85), conns, steps)
+            opts = {}
+            if rng.chance(0.3): opts["connection_strategy"] = "lazy"
+            if rng.chance(0.2): opts["http_connect_send_host_header"] = False
+            if rng.chance(0.2): opts["keep_host_header"] = True
+            pauth = rng.weighted([(8, None), (2, "good"), (2, "bad")])
+            if pauth and "socks5" in conns: pauth = None       # (the SOCKS5 handshake of this harness does not authenticate)
+            yield self.mk_case(rng.chance(0.85), conns, steps, opts, rng.pick(self.CREDS) if rng.chance(0.4) else None, pauth)
 
     # ------------------------------------------------------------------ implementation runner
-    def req_bytes(self, cn, k, idx):
+    def req_bytes(self, cn, k, idx, pauth=None):
+        raw = self.req_bytes0(cn, k, idx)
+        if pauth and not cn.tunnel:
+            name = b"Proxy-Authorization" if is_proxy_mode(cn.mode) else b"Authorization"
+            val = self.CLIENT_CRED if pauth == "good" else "cli:wrong"
+            raw = raw[:-2] + name + b": Basic " + base64.b64encode(val.encode()) + b"\r\n\r\n"
+        return raw
+
+    def req_bytes0(self, cn, k, idx):
         mode = cn.mode
         if k in ("c80", "c443"):
             t = b"t%d.example:%d" % (idx, 80 if k == "c80" else 443)
@@ -299,19 +328,26 @@ class Check(PropertyCheck):
 
     def impl(self, case):
         ua = upstream_auth.UpstreamAuth()
-        addons = [ua, next_layer.NextLayer(), proxyserver.Proxyserver()]
+        addons = [proxyserver.Proxyserver(), next_layer.NextLayer()]        # default addon order
+        pa = None
+        if case.get("pauth"):
+            pa = proxyauth.ProxyAuth(); addons.insert(0, pa)
+        TOKEN = self.token_of(case)
         need_tls = any(st["k"] == "https" and is_proxy_mode(case["conns"][st["c"]]["mode"]) for st in case["steps"])
         if need_tls: addons.append(tlsconfig.TlsConfig())
+        addons.append(ua)
         with taddons.context(*addons) as tctx:
+            if pa: tctx.configure(pa, proxyauth=self.CLIENT_CRED)
+            for k, v in (case.get("opts") or {}).items(): setattr(tctx.options, k, v)
             if need_tls:
                 ensure_confdir()
                 tctx.options.update(confdir=CONFDIR, ssl_insecure=True, http2=False)
-            tctx.configure(ua, upstream_auth=self.CRED if case["auth"] else None)
+            tctx.configure(ua, upstream_auth=self.cred_of(case) if case["auth"] else None)
             conns = [Conn(tctx, cid, c["mode"]) for cid, c in enumerate(case["conns"])]
             outs = []
             for idx, st in enumerate(case["steps"]):
                 cn = conns[st["c"]]
-                cn.w.recv("client", self.req_bytes(cn, st["k"], idx))
+                cn.w.recv("client", self.req_bytes(cn, st["k"], idx, case.get("pauth")))
                 cn.pump()
                 cnew, writes = cn.delta()
                 sts = parse_statuses(cnew)
@@ -319,10 +355,10 @@ class Check(PropertyCheck):
                 for dest, head, tls in writes:
                     form = "connect" if head.startswith(b"CONNECT ") else "request"
                     fields = [l.partition(b":") for l in head.split(b"\r\n")[1:] if l]
-                    creds = sorted({k.strip().lower().decode("latin1") for k, _, v in fields if self.TOKEN in v})
+                    creds = sorted({k.strip().lower().decode("latin1") for k, _, v in fields if TOKEN in v})
                     other = sorted({k.strip().lower().decode("latin1") for k, _, v in fields
-                                    if k.strip().lower() in (b"proxy-authorization", b"authorization") and self.TOKEN not in v})
-                    stray = self.TOKEN in head and not creds
+                                    if k.strip().lower() in (b"proxy-authorization", b"authorization") and TOKEN not in v})
+                    stray = TOKEN in head and not creds
                     ws.append({"dest": dest, "form": form, "tls": tls, "creds": creds, "other_auth": other, "stray": stray})
                 if st["k"] in ("c80", "c443") and sts == [200]: cn.tunnel = True
                 outs.append({"client": sts, "writes": ws, "closed": cn.client not in cn.w.transports})
@@ -333,6 +369,8 @@ class Check(PropertyCheck):
     def oracle(self, case, obs):
         if obs["errors"]: return [f"layer raised: {obs['errors'][0]}"]
         fails = []
+        if case.get("pauth") == "bad" and any(o["writes"] for o in obs["steps"]):
+            fails.append("a request refused by proxyauth was written upstream")
         in_tunnel = set()
         for idx, (st, o) in enumerate(zip(case["steps"], obs["steps"])):
             cid = st["c"]; mode = case["conns"][cid]["mode"]
@@ -355,6 +393,7 @@ class Check(PropertyCheck):
 
     # ------------------------------------------------------------------ model tie
     def model_lines(self, case):
+        if case.get("pauth") == "bad": return None     # ProxyAuth refuses everything: oracle only (nothing may be written)
         evs = " ".join(f"{st['c']}/{st['k']}" for st in case["steps"])
         return [f"run {1 if case['auth'] else 0} {','.join(c['mode'] for c in case['conns'])} {evs}"]
 
@@ -387,7 +426,9 @@ class Check(PropertyCheck):
         return json.dumps(case, sort_keys=True)
 
     def branches(self, case, obs):
-        out = ["auth" if case["auth"] else "noauth"]
+        out = ["auth" if case["auth"] else "noauth"] + ["opt:" + k for k in (case.get("opts") or {})]
+        if case.get("pauth"): out.append("proxyauth:" + case["pauth"])
+        if case.get("cred"): out.append("cred:variant")
         for st, o in zip(case["steps"], obs["steps"]):
             mode = case["conns"][st["c"]]["mode"]
             for w in o["writes"]:
